@@ -5,12 +5,13 @@ import ast
 
 from .. import astutil as A
 from ..core import AnalysisError, Collector
-from .common import FnCtx, fnctx, is_method_call, is_self_call
+from .. import sym as S
+from .common import FnCtx, SCtx, fnctx, sctx, is_method_call, is_self_call
 from . import c01, c11
 from .toposort_rules import check_toposort
 
 PROP = "C13"
-FLOORS = {"C13.R1": 7, "C13.R2": 12, "C13.R3": 4, "C13.R4": 8}
+FLOORS = {"C13.R1": 7, "C13.R2": 10, "C13.R3": 4, "C13.R4": 8}
 META = {
     "explanation": "Template of the compiler: mk_fun takes ONE task list from find_tasks over all argument refs together (the same "
                    "scheduler as assignment: trigger closure + reverse-post-order DFS, re-checked here), emits the header, then one "
@@ -23,115 +24,110 @@ META = {
 }
 
 
+def _kw(sx: SCtx):
+    for t in sx.sym.params.values():
+        if t[:1] == ("param",) and t[2].startswith("**"):
+            return t
+    raise AnalysisError(f"{sx.qual}: no **kwargs parameter")
+
+
 def _mk_fun(col, rule="C13.R1"):
-    repo = col.repo
-    cx = fnctx(repo, "Manager", "mk_fun")
-    cfg = cx.cfg
+    """the text returned by mk_fun, as a term: header line, one assignment line per argument, one line per task of
+    ONE schedule over all argument refs; joined by newlines -- however the lines are formatted and collected"""
+    sx = sctx(col.repo, "Manager", "mk_fun", public=True, keep=c01.ANCHORS)
     q = "Manager.mk_fun"
-    kw = cx.fn.args.kwarg.arg if cx.fn.args.kwarg else None
-    name_p = A.params(cx.fn)[1]
-    if kw is None:
-        raise AnalysisError("Manager.mk_fun: no **kwargs")
-    ft = cx.call_nodes(lambda c: is_self_call(c, "find_tasks"))
-    ok = len(ft) == 1 and not cfg.in_loop(ft[0])
-    facts = f"{len(ft)} find_tasks call sites; in loop: {[cfg.in_loop(f) for f in ft]}"
-    tasks_var = None
-    if ok:
-        c = cx.calls_at(ft[0], lambda c: is_self_call(c, "find_tasks"))[0]
-        arg = cx.resolve(c.args[0], ft[0]) if c.args else None
-        ok = isinstance(arg, ast.Call) and isinstance(arg.func, ast.Attribute) and arg.func.attr == "values" and A.dotted(arg.func.value) == kw
-        if isinstance(arg, ast.Call) and A.call_name(arg) in ("list", "tuple") and arg.args:
-            inner = arg.args[0]
-            ok = isinstance(inner, ast.Call) and isinstance(inner.func, ast.Attribute) and inner.func.attr == "values" and A.dotted(inner.func.value) == kw
-        facts = A.src(c)
-        st = cfg.nodes[ft[0]].ast
-        if isinstance(st, ast.Assign):
-            tasks_var = A.target_names(st.targets[0])[0] if A.target_names(st.targets[0]) else None
-    col.add(rule, f"{q}#one-schedule-for-all-arguments", ok, cx.loc(ft[0]) if ft else cx.loc(cx.fn),
-            "the task list is one find_tasks() over all argument refs together (a global topological order, not a merge of per-argument orders)",
-            facts)
-    # emission: appends to the line list
-    appends = cx.call_nodes(lambda c: isinstance(c.func, ast.Attribute) and c.func.attr == "append")
-    assign_nodes, task_nodes = [], []
-    for nid in appends:
-        loops = [g for g in cfg.guards(nid) if g.kind == "T" and isinstance(g.ast, ast.For)]
-        conds = [g for g in cfg.guards(nid) if not isinstance(g.ast, ast.For)]
-        c = cx.calls_at(nid, lambda c: isinstance(c.func, ast.Attribute) and c.func.attr == "append")[0]
-        e = c.args[0] if c.args else None
-        if len(loops) == 1 and isinstance(e, ast.JoinedStr):
-            fv = [p for p in e.values if isinstance(p, ast.FormattedValue)]
-            lits = "".join(p.value for p in e.values if isinstance(p, ast.Constant))
-            it = loops[0].ast.iter
-            tv = A.target_names(loops[0].ast.target)
-            if isinstance(it, ast.Call) and isinstance(it.func, ast.Attribute) and it.func.attr == "items" and A.dotted(it.func.value) == kw \
-                    and len(tv) == 2 and [A.dotted(p.value) for p in fv] == [tv[1], tv[0]] and lits.strip() == "=" and not conds \
-                    and all(p.conversion == -1 for p in fv):
-                assign_nodes.append(nid)
-            elif tasks_var and A.dotted(it) == tasks_var and len(tv) == 1 and [A.dotted(p.value) for p in fv] == tv and lits.strip() == "" and not conds:
-                task_nodes.append(nid)
-    col.add(rule, f"{q}#one-assignment-per-argument", len(assign_nodes) == 1, cx.loc(assign_nodes[0]) if assign_nodes else cx.loc(cx.fn),
-            "for every (name, ref) argument one line `<ref> = <name>` is emitted, unconditionally", f"{len(assign_nodes)} such loops")
-    col.add(rule, f"{q}#each-task-once-in-order", len(task_nodes) == 1, cx.loc(task_nodes[0]) if task_nodes else cx.loc(cx.fn),
-            "every task of the schedule is emitted exactly once, in schedule order, unfiltered", f"{len(task_nodes)} such loops")
-    if assign_nodes and task_nodes:
-        order = not cfg.path_avoiding(task_nodes[0], assign_nodes[0], []) and cfg.path_avoiding(assign_nodes[0], task_nodes[0], [])
-        col.add(rule, f"{q}#assignments-before-tasks", order, cx.loc(task_nodes[0]),
-                "the argument assignments precede the task lines in the generated body", "")
-    other = [n for n in appends if n not in assign_nodes + task_nodes]
-    col.add(rule, f"{q}#no-other-lines", not other, cx.loc(other[0]) if other else cx.loc(cx.fn),
-            "no other line is emitted into the function body", f"{[cx.loc(o) for o in other]}")
-    # header
-    hdr = False
-    for n in A.walk(cx.fn):
-        if isinstance(n, ast.JoinedStr):
-            lits = "".join(p.value for p in n.values if isinstance(p, ast.Constant))
-            if lits.startswith("def ") and lits.rstrip().endswith("):"):
-                fv = [p for p in n.values if isinstance(p, ast.FormattedValue)]
-                hdr = len(fv) == 2 and A.dotted(fv[0].value) == name_p and "join" in A.src(fv[1].value)
-    col.add(rule, f"{q}#header", hdr, cx.loc(cx.fn), "the header is `def <name>(<argument names>):`", "")
-    rets = [n for n in cfg.nodes.values() if n.kind == "stmt" and isinstance(n.ast, ast.Return)]
-    col.add(rule, f"{q}#returns-joined-lines", len(rets) == 1, cx.loc(cx.fn), "mk_fun returns the joined lines", "")
-    # sorted/reversed/set applied to the task list?
-    bad = [c for c in A.calls(cx.fn) if A.call_name(c) in ("sorted", "reversed", "set", "frozenset") or
-           (isinstance(c.func, ast.Attribute) and c.func.attr in ("sort", "reverse"))]
-    col.add(rule, f"{q}#schedule-not-reordered", not bad, cx.loc(cx.fn), "the schedule is not re-ordered or de-duplicated by hand", f"{[A.src(b) for b in bad]}")
+    kw = _kw(sx)
+    name_p = sx.P(0)
+    rets = sx.of_kind("return")
+    if len(rets) != 1:
+        raise AnalysisError(f"{q}: expected one return -- cannot decide")
+    v = S.norm_str(rets[0].value)
+    m = S.match(v, S.mcall(("const", repr("\n")), "join", S.V("lines")))
+    if m is None or m["lines"][:1] != ("acc",) or m["lines"][1] != "list":
+        raise AnalysisError(f"{q}: the result is not '\\n'.join(<list of lines built here>): {S.show(v)} -- cannot decide")
+    lines = m["lines"][2]
+    col.add(rule, f"{q}#returns-joined-lines", True, sx.loc(rets[0]), "mk_fun returns the emitted lines joined by newlines", "")
+    values = (S.mcall(kw, "values"), S.fcall("list", S.mcall(kw, "values")), S.fcall("tuple", S.mcall(kw, "values")))
+    sched = [S.mcall(S.SELF, "find_tasks", x) for x in values]
+    hdr, assigns, tasks, other = [], [], [], []
+    for c in lines:
+        if c[0] != "one":
+            other.append(c)
+            continue
+        tp = S.template(c[2])
+        if tp is None:
+            other.append(c)
+            continue
+        skel, holes = tp
+        hv = [h[1] for h in holes]
+        if skel.startswith("def ") and skel.rstrip().endswith("):"):
+            hdr.append((c, skel, holes))
+        elif len(hv) == 2 and skel.strip() == "{} = {}":
+            assigns.append((c, skel, holes))
+        elif len(hv) == 1 and skel.strip() == "{}" and hv[0][:1] == ("elem",):
+            tasks.append((c, skel, holes))
+        elif not hv:
+            pass        # a constant line (comment, pass, docstring) carries no data
+        else:
+            other.append(c)
+    ok_h = len(hdr) == 1 and not hdr[0][0][1] and len(hdr[0][2]) == 2 and hdr[0][2][0][1] == name_p and \
+        S.match(hdr[0][2][1][1], S.mcall(S.V("sep", lambda t: t[:1] == ("const",) and "," in t[1]), "join",
+                                         S.V("ks", lambda t: t in (kw, S.mcall(kw, "keys"))))) is not None
+    col.add(rule, f"{q}#header", ok_h, sx.loc(sx.fn), "the header is `def <name>(<argument names>):`",
+            S.show(hdr[0][0][2]) if hdr else "no header line")
+    ok_a = len(assigns) == 1 and not assigns[0][0][1] and [h[1] for h in assigns[0][2]] == [("val", kw), ("key", kw)] \
+        and all(h[0] in ("", "!s") for h in assigns[0][2]) and assigns[0][1].startswith(" ")
+    col.add(rule, f"{q}#one-assignment-per-argument", ok_a, sx.loc(sx.fn),
+            "for every (name, ref) argument one line `<ref> = <name>` is emitted, unconditionally",
+            "; ".join(S.show(a[0][2]) + (" if ..." if a[0][1] else "") for a in assigns) or "no such line")
+    ok_t = len(tasks) == 1 and not tasks[0][0][1] and tasks[0][2][0][1][1] in sched and tasks[0][2][0][0] in ("", "!s") \
+        and tasks[0][1].startswith(" ")
+    col.add(rule, f"{q}#each-task-once-in-order", ok_t, sx.loc(sx.fn),
+            "every task of the schedule is emitted exactly once, in schedule order, unfiltered",
+            "; ".join(S.show(t[0][2]) + (" if ..." if t[0][1] else "") for t in tasks) or "no such line")
+    one = len(tasks) == 1 and tasks[0][2][0][1][1] in sched
+    col.add(rule, f"{q}#one-schedule-for-all-arguments", one, sx.loc(sx.fn),
+            "the task list is one find_tasks() over all argument refs together (a global topological order, not a merge of "
+            "per-argument orders)", S.show(tasks[0][2][0][1][1]) if tasks else "")
+    if hdr and assigns and tasks:
+        idx = [list(lines).index(x[0]) for x in (hdr[0], assigns[0], tasks[0])]
+        col.add(rule, f"{q}#assignments-before-tasks", idx == sorted(idx), sx.loc(sx.fn),
+                "header, then the argument assignments, then the task lines", f"line order {idx}")
+    col.add(rule, f"{q}#no-other-lines", not other, sx.loc(sx.fn), "no other data-carrying line is emitted into the function body",
+            f"{[S.show(('acc', 'list', (o,))) for o in other]}")
 
 
 def _gen_fun(col, rule="C13.R3"):
-    repo = col.repo
-    cx = fnctx(repo, "Manager", "gen_fun")
+    sx = sctx(col.repo, "Manager", "gen_fun", public=True, keep=c01.ANCHORS)
     q = "Manager.gen_fun"
-    kw = cx.fn.args.kwarg.arg if cx.fn.args.kwarg else None
-    name_p = A.params(cx.fn)[1]
-    mk = cx.call_nodes(lambda c: is_self_call(c, "mk_fun"))
-    ok = len(mk) == 1
-    src_var = None
-    if ok:
-        c = cx.calls_at(mk[0], lambda c: is_self_call(c, "mk_fun"))[0]
-        ok = len(c.args) == 1 and A.dotted(c.args[0]) == name_p and len(c.keywords) == 1 and c.keywords[0].arg is None and A.dotted(c.keywords[0].value) == kw
-        st = cx.cfg.nodes[mk[0]].ast
-        if isinstance(st, ast.Assign):
-            src_var = A.target_names(st.targets[0])[0]
-    col.add(rule, f"{q}#source-from-mk_fun", ok, cx.loc(cx.fn), "gen_fun compiles exactly mk_fun(name, **kwargs)", "")
-    ex = [c for c in A.calls(cx.fn) if A.call_name(c) == "exec"]
-    ok = len(ex) == 1 and len(ex[0].args) == 3 and A.dotted(ex[0].args[0]) == src_var
-    col.add(rule, f"{q}#executes-that-source", ok, cx.loc(cx.fn), "the text executed is mk_fun's text, unmodified", A.src(ex[0]) if ex else "")
-    gbl = A.dotted(ex[0].args[1]) if ex and len(ex[0].args) == 3 else None
+    kw = _kw(sx)
+    name_p = sx.P(0)
+    ex = sx.calls_some(S.fcall("exec", S.V("src"), S.V("gbl"), S.V("lcl")))
+    if len(ex) != 1:
+        raise AnalysisError(f"{q}: expected one exec(source, globals, locals) -- cannot decide")
+    ev, m = ex[0]
+    want_src = ("call", ("attr", S.SELF, "mk_fun"), (name_p,), (("**", kw),))
+    col.add(rule, f"{q}#source-from-mk_fun", m["src"] == want_src, sx.loc(ev),
+            "gen_fun compiles exactly mk_fun(name, **kwargs): the text executed is mk_fun's text, unmodified", S.show(m["src"]))
+    cont = S.sattr("containers")
+    pair_k, pair_v = ("key", cont), ("attr", ("val", cont), "_owner")
+    g = m["gbl"]
     okg = False
-    for c in A.calls(cx.fn):
-        if isinstance(c.func, ast.Attribute) and c.func.attr == "update" and A.dotted(c.func.value) == gbl and c.args:
-            g = c.args[0]
-            if isinstance(g, (ast.GeneratorExp, ast.ListComp, ast.DictComp)) and len(g.generators) == 1 and not g.generators[0].ifs \
-                    and A.src(g.generators[0].iter) == "self.containers.items()":
-                tv = A.target_names(g.generators[0].target)
-                e = g.elt if not isinstance(g, ast.DictComp) else ast.Tuple(elts=[g.key, g.value])
-                okg = isinstance(e, ast.Tuple) and A.dotted(e.elts[0]) == tv[0] and A.dotted(e.elts[1]) == f"{tv[1]}._owner"
-    col.add(rule, f"{q}#labels-bound-to-containers", okg, cx.loc(cx.fn),
-            "every container label is bound to the container object itself in the function's globals", "")
-    rets = [n.value for n in A.walk(cx.fn) if isinstance(n, ast.Return)]
-    lcl = A.dotted(ex[0].args[2]) if ex and len(ex[0].args) == 3 else None
-    okr = len(rets) == 1 and isinstance(rets[0], ast.Subscript) and A.dotted(rets[0].value) == lcl and A.dotted(rets[0].slice) == name_p
-    col.add(rule, f"{q}#returns-compiled-function", okr, cx.loc(cx.fn), "gen_fun returns the function it just defined", "")
+    if g[:1] == ("acc",) and g[1] == "dict":
+        data = [c for c in g[2]]
+        okg = len(data) == 1 and not data[0][1] and (
+            (data[0][0] == "kv" and data[0][2] == pair_k and data[0][3] == pair_v) or
+            (data[0][0] == "one" and data[0][2] == ("tuple", (pair_k, pair_v))))
+    col.add(rule, f"{q}#labels-bound-to-containers", okg, sx.loc(ev),
+            "every container label is bound to the container object itself in the function's globals (and nothing else)", S.show(g))
+    rets = sx.of_kind("return")
+    okr = len(rets) == 1 and S.match(rets[0].value, ("sub", S.V("l"), name_p)) is not None and \
+        S.match(rets[0].value, ("sub", S.V("l"), name_p))["l"][:2] == m["lcl"][:2]
+    col.add(rule, f"{q}#returns-compiled-function", okr, sx.loc(sx.fn), "gen_fun returns the function it just defined",
+            S.show(rets[0].value) if rets else "")
+    st = [S.show(t) for e in sx.of_kind("store") for t in S.alts(e.target) if S.is_attr(t, S.SELF) or (t[:1] == ("sub",) and t[1][:1] == ("glob",))]
+    col.add(rule, f"{q}#no-cache", not st, sx.loc(sx.fn),
+            "the compiled function is not remembered across calls (it is bound to this manager's containers)", f"stores: {st}")
 
 
 def check(col: Collector):
